@@ -440,26 +440,27 @@ func r01_6(c *RC) {
 			return
 		}
 		key := "no-space-means-closed"
-		// the return block must be the closedChan case of a select
+		// the return is reached only when the session is closed: through the
+		// closedChan case of a select, or through the "closed" answer of a
+		// helper that is nothing but that poll
 		good := false
+		edges := controllingEdges(b)
 		for _, pred := range b.Preds {
-			last := pred.Instrs[len(pred.Instrs)-1]
-			iff, ok := last.(*ssa.If)
-			if !ok {
-				continue
-			}
-			// select lowering: cond is (index == i) of a Select
-			if bo, ok := iff.Cond.(*ssa.BinOp); ok && bo.Op == token.EQL {
-				if ex, ok := bo.X.(*ssa.Extract); ok {
-					if sel, ok := ex.Tuple.(*ssa.Select); ok {
-						idx, _ := constInt(bo.Y)
-						if int(idx) < len(sel.States) {
-							if f := fieldOrigin(sel.States[idx].Chan); f != nil && f.Name() == "closedChan" && pred.Succs[0] == b {
-								good = true
-							}
-						}
-					}
+			if iff, ok := pred.Instrs[len(pred.Instrs)-1].(*ssa.If); ok && len(b.Preds) == 1 {
+				idx := 1
+				if pred.Succs[0] == b {
+					idx = 0
 				}
+				edges = append(edges, condEdge{iff, idx})
+			}
+		}
+		for _, e := range edges {
+			if f := selectCaseChan(e); f != nil && f.Name() == "closedChan" {
+				good = true
+			}
+			atom, neg := condAtom(e.If.Cond)
+			if cl, ok := atom.(*ssa.Call); ok && (e.Idx == 0) != neg && pollHelperTrueOn(cl, "closedChan") {
+				good = true
 			}
 		}
 		if good {
